@@ -136,6 +136,13 @@ class LabelDomain:
                 return v(recv) if recv is not None else (CLEAN, frozenset())
             return v(a[0])
         if op == "upd":
+            base = a[0]
+            while base.op in ("upd", "loopvar", "assume", "loopout"):
+                base = base.args[0] if base.op == "upd" else (base.args[1] if base.op == "assume" else base.args[2])
+            if base.op in ("dict", "list", "comp") or (base.op == "call" and base.args[0].op == "global"
+                                                       and base.args[0].args[0] in ("builtins.dict", "builtins.list")):
+                # a python container holds what was put into it: d[k] = series; ... d[k] is that series, labels included
+                return self._join([v(a[0]), v(a[2])])
             return v(a[0])
         if op == "assume":
             ca, _ = refine_by_cond(a[0], clean)
@@ -151,8 +158,16 @@ class LabelDomain:
             return v(a[0])
         if op in ("and", "or"):
             return self._join([v(x) for x in a[0]])
-        if op in ("tuple", "list", "set", "dict", "comp", "kv", "listappend", "listextend"):
-            return CLEAN, frozenset()  # python containers: iteration yields values, not labels
+        if op == "dict":
+            return self._join([v(val_) for _k, val_ in a[0]])     # the label state of what the container holds (a python
+        if op == "kv":                                                # container has no labels of its own; its elements may)
+            return v(a[1])
+        if op in ("tuple", "list", "set"):
+            return self._join([v(x) for x in a[0]])
+        if op == "comp":
+            return v(a[1])
+        if op in ("listappend", "listextend"):
+            return self._join([v(a[0]), v(a[1])])
         if op == "elem":
             it = a[0]
             if it.op == "call" and it.args[0].op == "attr" and it.args[0].args[1] in ("groupby", "iterrows", "items",
@@ -298,6 +313,8 @@ class LabelDomain:
                     loc, obj = True, base.args[0]
                 elif base.op == "attr" and base.args[1] in ("iloc", "iat"):
                     continue
+                elif base.op == "attr" and base.args[1] in ("columns", "index", "shape", "values", "dtypes"):
+                    continue   # an Index / tuple / ndarray is subscripted by position
                 ok_, op_ = v(obj)
                 if ok_ != USER:
                     continue
